@@ -657,7 +657,7 @@ func scenLang(c *Ctx) *eCase {
 	tick := c.Counts["gen:scenLang"]
 	c.Count("gen:scenLang")
 	ec.preferStatic = true
-	if tick%3 == 0 {
+	if (tick/3)%2 == 1 { // (not tick%3: the rounds that go through DbResource all have the same residue)
 		ec.inputs = ins("", "1", "0", "2", "0", "1")
 	} else {
 		// a language-dependent symbol is looked up before the language changes and again afterwards
@@ -912,7 +912,28 @@ func scenSameLen(c *Ctx) *eCase {
 	return ec
 }
 
-var scenarios = []func(*Ctx) *eCase{scenNewlineLast, scenDeep, scenUtf8, scenUtf8, scenCroak, scenLang, scenReload, scenBlanks, scenWild, scenCatchRel, scenEnds, scenSizes, scenRefused, scenCatchHub, scenSameLen}
+// a RELOAD whose value does not fit the cache (rejected; the accounting must be put back), then ascent, a graceful end,
+// a restart and the same LOAD again
+func scenReloadEnd(c *Ctx) *eCase {
+	r := c.Rng
+	ec := newScenario(0)
+	ec.cache = []int{48, 40, 64}[r.Intn(3)]
+	ec.node("root", "Root", GInstr{Op: "MOUT", A: "go", B: "1"}, GInstr{Op: "MOUT", A: "bye", B: "9"}, GInstr{Op: "HALT"}, GInstr{Op: "INCMP", A: "sub", B: "1"}, GInstr{Op: "INCMP", A: "bye", B: "9"})
+	ec.node("sub", "Sub {{.hist}}", GInstr{Op: "LOAD", A: "hist", N: 0}, GInstr{Op: "MAP", A: "hist"}, GInstr{Op: "MOUT", A: "again", B: "5"}, GInstr{Op: "MOUT", A: "back", B: "0"}, GInstr{Op: "HALT"},
+		GInstr{Op: "INCMP", A: "_", B: "0"}, GInstr{Op: "INCMP", A: "again", B: "5"})
+	ec.node("again", "Again", GInstr{Op: "RELOAD", A: "hist"}, GInstr{Op: "MOVE", A: "_"}) // refresh from one level down, then back
+	ec.node("bye", "Bye", GInstr{Op: "HALT"})
+	ec.catchNode()
+	ec.exts = append(ec.exts, extRule{sym: "hist", callIdx: 1, content: strings.Repeat("h", ec.cache+12)}, extRule{sym: "hist", callIdx: -1, content: "eleven chrs"})
+	in := []string{"", "1", "5"}
+	if r.Intn(2) == 0 {
+		in = append(in, "5")
+	}
+	ec.inputs = ins(append(in, "0", "9", "", "1", "0")...)
+	return ec
+}
+
+var scenarios = []func(*Ctx) *eCase{scenNewlineLast, scenDeep, scenUtf8, scenUtf8, scenCroak, scenLang, scenReload, scenBlanks, scenWild, scenCatchRel, scenEnds, scenSizes, scenRefused, scenCatchHub, scenSameLen, scenReloadEnd}
 
 func genScenarioCases(c *Ctx, n int) []string {
 	var ls []string
